@@ -39,7 +39,8 @@ CONSTANTS MaxClip,      \* soft clip at the read start 0..MaxClip
           ReadLens,     \* set of read lengths
           FlankIds,     \* subset of 1..4: model references Left(k) CATG Right(k')
           FlankPairs,   \* "diag" : k = k' ; "all" : every pair
-          MMBases,      \* substitute bases tried for kind "mm"
+          MMBases,      \* substitute bases tried for kind "mm" (may contain "N": a no-call is not a match)
+          BoundaryPs,   \* cut coordinates at the contig start (sites at / left of coordinate 0; mirrored: contig end)
           XBases,       \* foreign bases tried for kind "extra"
           Protos,       \* subset of {"nla","chic"}
           Variant       \* "design" | "impl_revmotif" | "impl_shiftclip" | "impl"
@@ -49,7 +50,8 @@ Dev(d) == Variant = "impl" \/ Variant = d
 ---------------------------------------------------------------------------------------------------
 (* bases, reads, mirroring *)
 Base == {"A", "C", "G", "T"}
-Comp(b) == CASE b = "A" -> "T" [] b = "C" -> "G" [] b = "G" -> "C" [] b = "T" -> "A"
+ReadBase == Base \cup {"N"}                              \* a read (not the reference) may carry no-calls
+Comp(b) == CASE b = "A" -> "T" [] b = "C" -> "G" [] b = "G" -> "C" [] b = "T" -> "A" [] b = "N" -> "N"
 RevSeq(q)  == [i \in 1 .. Len(q) |-> q[Len(q) + 1 - i]]
 RevComp(q) == [i \in 1 .. Len(q) |-> Comp(q[Len(q) + 1 - i])]
 CATG == <<"C", "A", "T", "G">>
@@ -84,10 +86,10 @@ DeriveRead(s) == IF ~s.rev THEN FwdRead(s) ELSE MirrorRead(FwdRead(MirrorScn(s))
 FwdWellFormed(s) ==
     /\ s.L = Len(s.ref) /\ \A i \in DOMAIN s.ref : s.ref[i] \in Base
     /\ s.clip >= 0 /\ s.clip3 >= 0 /\ s.clip + s.clip3 < s.n /\ s.n >= 5
-    /\ UStart(s) >= 0 /\ UStart(s) + s.n <= s.L /\ s.p >= 0 /\ s.p + 4 <= s.L
-    /\ s.proto = "nla" => /\ Slice(s.ref, s.p, 4) = CATG
+    /\ UStart(s) >= 0 /\ UStart(s) + s.n <= s.L /\ s.p >= 0 /\ s.p < s.L
+    /\ s.proto = "nla" => /\ s.p + 4 <= s.L /\ Slice(s.ref, s.p, 4) = CATG
                           /\ s.kind \in {"ok", "mm", "lost", "extra"}
-                          /\ s.kind = "mm" => s.mmpos \in 0 .. 3 /\ s.mmbase \in Base /\ s.mmbase # CATG[s.mmpos + 1]
+                          /\ s.kind = "mm" => s.mmpos \in 0 .. 3 /\ s.mmbase \in ReadBase /\ s.mmbase # CATG[s.mmpos + 1]
                           /\ s.kind = "extra" => s.xbase \in Base
                           /\ s.r2 \in {"none", "proper"}
     /\ s.proto = "chic" => s.kind \in {"trimmed", "untrimmed"} /\ s.r2 \in {"none", "proper", "same"}
@@ -215,6 +217,8 @@ RightFlank(k) == CASE k = 1 -> <<"G","G","C","A","T","G","C","C","T","A">>
                    [] k = 3 -> <<"G","T","A","C","A","T","C","A","G","G">>
                    [] k = 4 -> <<"G","T","C","A","G","T","C","A","A","C">>
 ModelRef(kl, kr) == LeftFlank(kl) \o CATG \o RightFlank(kr)
+(* reference with the CATG at coordinate p <= 10 (same length): used for cuts at the very start of the contig *)
+RefAt(kl, kr, p) == SubSeq(LeftFlank(kl), 1, p) \o CATG \o RightFlank(kr) \o SubSeq(LeftFlank(kl), 1, 10 - p)
 Flanks == IF FlankPairs = "all" THEN FlankIds \X FlankIds ELSE { <<k, k>> : k \in FlankIds }
 
 NlaKinds == {[kind |-> "ok", mmpos |-> 0, mmbase |-> "A", xbase |-> "A"], [kind |-> "lost", mmpos |-> 0, mmbase |-> "A", xbase |-> "A"]}
@@ -225,12 +229,18 @@ NlaOpts  == [check_motif : BOOLEAN, allow_cycle_shift : BOOLEAN, no_cigar : BOOL
 ChicOpts == [check_motif : {TRUE}, allow_cycle_shift : {FALSE}, no_cigar : BOOLEAN, invert_strand : BOOLEAN]
 
 Mk(proto, f, p, rv, k, c, c3, n, r2, o) ==
-    [proto |-> proto, L |-> 24, ref |-> ModelRef(f[1], f[2]), p |-> p, rev |-> rv, kind |-> k.kind, mmpos |-> k.mmpos,
+    [proto |-> proto, L |-> 24, ref |-> IF proto = "nla" THEN RefAt(f[1], f[2], p) ELSE ModelRef(f[1], f[2]), p |-> p, rev |-> rv, kind |-> k.kind, mmpos |-> k.mmpos,
      mmbase |-> k.mmbase, xbase |-> k.xbase, clip |-> c, clip3 |-> c3, n |-> n, r2 |-> r2, opts |-> o, sample |-> "c1"]
 (* the bounded scenario space, enumerated by Init (one initial state per well-formed scenario) *)
 ChoosesNla(s) == "nla" \in Protos /\
     \E f \in Flanks, rv \in BOOLEAN, k \in NlaKinds, c \in 0 .. MaxClip, c3 \in Clip3s, n \in ReadLens,
        r2 \in {"none", "proper"}, o \in NlaOpts : s = Mk("nla", f, 10, rv, k, c, c3, n, r2, o)
+(* contig-boundary cuts: the fragment starts at coordinate 0, 1 or 2 (its mirror image ends at the contig end) *)
+ChoosesBoundary(s) ==
+    \/ "nla" \in Protos /\ \E f \in Flanks, p \in BoundaryPs, k \in NlaKinds, c \in 0 .. MaxClip, n \in ReadLens, o \in NlaOpts :
+            s = Mk("nla", f, p, FALSE, k, c, 0, n, "none", o)
+    \/ "chic" \in Protos /\ \E f \in Flanks, p \in BoundaryPs, k \in ChicKinds, c \in 0 .. MaxClip, n \in ReadLens, o \in ChicOpts :
+            s = Mk("chic", f, p, FALSE, k, c, 0, n, "none", o)
 ChoosesChic(s) == "chic" \in Protos /\
     \E f \in Flanks, p \in {11, 12}, rv \in BOOLEAN, k \in ChicKinds, c \in 0 .. MaxClip, c3 \in Clip3s, n \in ReadLens,
        r2 \in {"none", "proper", "same"}, o \in ChicOpts : s = Mk("chic", f, p, rv, k, c, c3, n, r2, o)
@@ -238,7 +248,7 @@ ChoosesChic(s) == "chic" \in Protos /\
 Scn(i) == IF i = 1 THEN scn ELSE MirrorScn(scn)
 Turn(i) == i = 1 \/ pc[1] = "done"
 
-Init == /\ (ChoosesNla(scn) \/ ChoosesChic(scn))
+Init == /\ (ChoosesNla(scn) \/ ChoosesChic(scn) \/ ChoosesBoundary(scn))
         /\ WellFormed(scn)
         /\ pc = <<"new", "new">>
         /\ frag = <<Blank(DeriveRead(scn)), Blank(DeriveRead(MirrorScn(scn)))>>
